@@ -72,13 +72,19 @@ func runC13(b *fw.B) {
 			nDeps = 0
 		}
 		kinds := map[string]int{}
+		clean := (b.Batch+i)%4 == 3
 		nextKey := 0
 		incr := p.EFFECTIVE_BALANCE_INCREMENT
 		for d := 0; d < nDeps; d++ {
 			amounts := []uint64{p.MAX_EFFECTIVE_BALANCE, p.MAX_EFFECTIVE_BALANCE, p.MAX_EFFECTIVE_BALANCE, p.MAX_EFFECTIVE_BALANCE + incr, p.MAX_EFFECTIVE_BALANCE - 1, p.MAX_EFFECTIVE_BALANCE + 1,
 				p.MAX_EFFECTIVE_BALANCE - incr, p.MAX_EFFECTIVE_BALANCE / 2, incr, incr - 1, 2*incr + 1}
 			amt := amounts[rng.IntN(len(amounts))]
-			switch k := rng.IntN(14); {
+			k := rng.IntN(14)
+			if clean {
+				// a list of full, valid, distinct deposits only: every validator of the registry is active at genesis
+				amt, k = amounts[rng.IntN(4)], 0
+			}
+			switch {
 			case k < 7 && nextKey < sim.MaxKeys:
 				dc.Add(c.MakeDepositData(nextKey, amt, rng.IntN(2) == 0, true))
 				nextKey++
@@ -220,6 +226,27 @@ func runC13(b *fw.B) {
 			}
 			b.CountIf(wantValid, "validity_true")
 			b.CountIf(!wantValid, "validity_false")
+			// the same state under thresholds just below, at and just above what it has (both parameters)
+			for _, dc := range []int64{-1, 0, 1} {
+				for _, dt := range []int64{-1, 0, 1} {
+					if int64(active)+dc < 0 {
+						continue
+					}
+					vz := *zspec
+					vz.MIN_GENESIS_ACTIVE_VALIDATOR_COUNT = view.Uint64View(uint64(int64(active) + dc))
+					vz.MIN_GENESIS_TIME = common.Timestamp(uint64(int64(refSt.GenesisTime) + dt))
+					vp := *sp.P
+					vp.MIN_GENESIS_ACTIVE_VALIDATOR_COUNT = uint64(vz.MIN_GENESIS_ACTIVE_VALIDATOR_COUNT)
+					vp.MIN_GENESIS_TIME = uint64(vz.MIN_GENESIS_TIME)
+					want := (&refspec.Spec{P: &vp, S: sp.S}).IsValidGenesisState(refSt)
+					got, verr := phase0.IsValidGenesisState(&vz, zst)
+					b.Inc("validity_boundary_checks")
+					b.CountIf(dc == 0 && len(refSt.Validators) == int(active), "validity_at_exact_count_with_every_validator_active")
+					if verr != nil || got != want {
+						b.Violate("IsValidGenesisState/wrong", fmt.Sprintf("IsValidGenesisState=%v (err %v), is_valid_genesis_state=%v: genesis_time %d vs MIN_GENESIS_TIME %d, active %d of %d validators vs MIN_GENESIS_ACTIVE_VALIDATOR_COUNT %d", got, verr, want, refSt.GenesisTime, vp.MIN_GENESIS_TIME, active, len(refSt.Validators), vp.MIN_GENESIS_ACTIVE_VALIDATOR_COUNT), nil)
+					}
+				}
+			}
 		}
 		// one corrupted proof: both must refuse
 		if total > 0 && i%3 == 0 {
